@@ -108,10 +108,14 @@ class TrainState(struct.PyTreeNode):
     # As implied by the OWG name, the gradients are used directly to update the
     # parameters.
     if OVERWRITE_WITH_GRADIENT in grads:
-      new_params = {
-        'params': new_params_with_opt,
-        OVERWRITE_WITH_GRADIENT: grads[OVERWRITE_WITH_GRADIENT],
-      }
+      # keep the container type of `self.params` (dict or FrozenDict).
+      new_params = core.copy(
+        self.params,
+        {
+          'params': new_params_with_opt,
+          OVERWRITE_WITH_GRADIENT: grads[OVERWRITE_WITH_GRADIENT],
+        },
+      )
     else:
       new_params = new_params_with_opt
     return self.replace(
